@@ -56,7 +56,7 @@ class PfiRef:
             if not dict_eq(dict(ret), {}) or not dict_eq(ex.importance_values, {}):
                 self.bad('first-call-values', f"importance values after the first call are {ret}", t)
             stored = sc_rows(h)
-            if len(stored) != 1 or not dict_eq(stored[0], x):
+            if not stored or not dict_eq(stored[-1], x) or (len(stored) != 1 and not getattr(h, 'prefilled', False)):
                 self.bad('first-call-storage', f"the first observation must seed the storage; it holds {stored}", t)
             return
         yhat = h.model.f(x)
